@@ -20,6 +20,8 @@ func main() {
 		props.C12(c)
 	case "C08":
 		props.C08(c)
+	case "C06":
+		props.C06(c)
 	default:
 		fmt.Fprintln(os.Stderr, "worker: unknown property", c.Prop)
 		os.Exit(2)
